@@ -41,6 +41,9 @@ type Step struct {
 
 type Case struct {
 	Steps []Step `json:"steps"`
+	// SharedTrace: every end-user request of the case carries the same trace and correlation ids (one trace spans many
+	// requests; a front end calling on behalf of several users; or simply a client's choice)
+	SharedTrace bool `json:"shared_trace_ids,omitempty"`
 }
 
 // the world: four backend slots with fixed definitions
@@ -157,6 +160,7 @@ func genCase(t *rapid.T) Case {
 		}
 		c.Steps = append(c.Steps, st)
 	}
+	c.SharedTrace = rapid.Bool().Draw(t, "sharedTrace")
 	return c
 }
 
@@ -534,6 +538,11 @@ func runCase(t vh.TB, c *Case) vh.Outcome {
 			ridCh := make(chan string, 1)
 			go func() {
 				hdr := http.Header{"X-Client-Token": {tok}}
+				if c.SharedTrace {
+					hdr.Set("X-Cloud-Trace-Context", "105445aa7843bc8bf206b12000100000/1;o=1")
+					hdr.Set("Traceparent", "00-105445aa7843bc8bf206b12000100000-00f067aa0ba902b7-01")
+					hdr.Set("X-Request-Id", "105445aa7843bc8bf206b12000100000")
+				}
 				uri := fmt.Sprintf("%s/%s?tok=%s", st.Path, tok, tok)
 				if st.Long {
 					uri = fmt.Sprintf("%s/long-%d?q=%s", st.Path, run, strings.Repeat("a", 260))
